@@ -26,6 +26,9 @@ fn main() {
             let max_len = if s.quick() { 6 } else { 7 };
             s.enumerate("e2-small-scope", e2::small_cases(max_len, &[1, 2]), |c, cx| e2::check(&c.to_case(), Prop::C09, cx));
             s.gen("file-batch-channel-laws", s.n(100_000, 3_000_000), fsim::e2e::batch_ops, |c, cx| fsim::e2e::check_batch_laws(c, cx));
+            // the same workloads against a LIVE worker (few stalls): silent discards on the receiver's side
+            // (idle path, hand-off) only show when the worker actually runs
+            s.gen("e7-os-threads-live", s.n(12_000, 300_000), || e7::workload(1), |c, cx| e7::check(c, Prop::C09, cx));
             s.gen("e7-os-threads", s.n(3_000, 150_000), || e7::workload(8), |c, cx| e7::check(c, Prop::C09, cx));
         },
     )
